@@ -100,11 +100,12 @@ func (g *w5GateEngine) Commit(off int64, meta []byte, safe int64) error {
 }
 
 type w5Op struct {
-	kind string // insert, insert_fail, read_do, view
-	s    string
-	done bool
-	err  error
-	off  int64 // dbOffset returned
+	kind     string // insert, insert_fail, read_do, view
+	viaQuery bool   // inserts: the INSERT is issued through Conn.Query (RETURNING) instead of Conn.Exec
+	s        string
+	done     bool
+	err      error
+	off      int64 // dbOffset returned
 	// read_do: binlog offset of the state the read saw, and the committed binlog offset when Do returned
 	seenDBOff, commitAtReturn int64
 	rows                      []string
@@ -503,7 +504,16 @@ func (w *w5World) exec(op *w5Op) {
 	case "insert", "insert_fail", "insert_cancel":
 		fail := op.kind == "insert_fail"
 		op.off, _, op.err = e.DoWithOffset(ctx, "test", func(conn Conn, cache []byte) ([]byte, error) {
-			_, err := conn.Exec("test", "INSERT INTO test_db(t) VALUES ($t)", BlobString("$t", op.s))
+			var err error
+			if op.viaQuery {
+				// the callback's first modifying statement goes through Query (INSERT ... RETURNING)
+				rows := conn.Query("test_ret", "INSERT INTO test_db(t) VALUES ($t) RETURNING id", BlobString("$t", op.s))
+				for rows.Next() {
+				}
+				err = rows.Error()
+			} else {
+				_, err = conn.Exec("test", "INSERT INTO test_db(t) VALUES ($t)", BlobString("$t", op.s))
+			}
 			if err != nil {
 				return cache, err
 			}
@@ -774,6 +784,7 @@ func (w *w5World) phase(dbdir string, nOps int, gated, faulty bool) {
 				w.insertsSinceIdle++
 			}
 			if strings.HasPrefix(op.kind, "insert") {
+				op.viaQuery = c.Intn(3, "insert_via_query") == 1
 				w.nextStr++
 				op.s = fmt.Sprintf("s%04d-%s", w.nextStr, strings.Repeat("x", c.Intn(40, "strlen")))
 			}
